@@ -8,8 +8,10 @@
     [hist_reach evs h]: h = (last installed snapshot, update batches that took effect since, open?) is
     explained by the history: every returned call took effect, every crashed call took effect entirely
     or not at all.  [hist_state h] = the updates applied on top of the snapshot; its first component is
-    the snapshot index plus the number of update entries.  [ck] is the checksum function of the pointer
-    file (arbitrary).  pebble is an abstract store (see the header of DiskKVProofs.v). *)
+    the snapshot index plus the entries and index gaps of the updates = the raft index of the last
+    entry applied ([OUpdate gap b]: the indexes handed to Update are strictly increasing but need not be
+    contiguous and may be of any magnitude; a snapshot's index is lastApplied + dlt, dlt arbitrary).  [ck]
+    is the checksum function of the pointer file (arbitrary).  pebble is an abstract store (see the header of DiskKVProofs.v). *)
 From Drummer.Model Require Import Base CrashFS DiskKVModel DiskKVRun.
 From Drummer.Proofs Require Import DiskKVProofs.
 
@@ -68,7 +70,7 @@ Print Assumptions C16_ack_is_result.
 
 (** ---- non-vacuity: concrete workloads with a crash in the middle (closed by computation) *)
 Definition w_pre : list event :=
-  [EvOp OOpen; EvOp (OUpdate [(1, 10)]); EvOp (OUpdate [(2, 20); (1, 11)])].
+  [EvOp OOpen; EvOp (OUpdate 0 [(1, 10)]); EvOp (OUpdate 0 [(2, 20); (1, 11)])].
 Definition snap5 : kvmap := [(3, 30); (2, 20); (1, 11)].
 
 Definition probe (evs : list event) : res * option (option N) * option (option N) :=
@@ -89,14 +91,30 @@ Proof. vm_compute. reflexivity. Qed.
 (* the acknowledged update (index 3) survives a crash in the middle of the first step of the next update *)
 Example C16_ex_acked :
   acked_index (run ckr w_pre sys0) = Some 3 /\
-  probe (w_pre ++ [EvCrash (OUpdate [(3, 33)]) 0]) = (ROk 3, Some (Some 11), Some None) /\
-  probe (w_pre ++ [EvCrash (OUpdate [(3, 33)]) 1]) = (ROk 4, Some (Some 11), Some (Some 33)).
+  probe (w_pre ++ [EvCrash (OUpdate 0 [(3, 33)]) 0]) = (ROk 3, Some (Some 11), Some None) /\
+  probe (w_pre ++ [EvCrash (OUpdate 0 [(3, 33)]) 1]) = (ROk 4, Some (Some 11), Some (Some 33)).
+Proof. vm_compute. repeat split; reflexivity. Qed.
+(* one Update call is one atomic batch, entries in order: a call that writes key 1 twice (10 then 12) and key 3
+   leaves the later value; a crash before its only store step leaves nothing of it, not even the first write *)
+Example C16_ex_same_key_in_one_call :
+  probe (w_pre ++ [EvCrash (OUpdate 0 [(1, 10); (3, 33); (1, 12)]) 0]) = (ROk 3, Some (Some 11), Some None) /\
+  probe (w_pre ++ [EvCrash (OUpdate 0 [(1, 10); (3, 33); (1, 12)]) 1]) = (ROk 6, Some (Some 12), Some (Some 33)) /\
+  probe (w_pre ++ [EvOp (OUpdate 0 [(1, 10); (3, 33); (1, 12)]); EvCrash OSync 0]) = (ROk 6, Some (Some 12), Some (Some 33)).
+Proof. vm_compute. repeat split; reflexivity. Qed.
+(* indexes of any magnitude, reached by an update after an index gap or by a snapshot's index, are reported
+   exactly by the reopened machine (127/128, 2^32, 2^63 + 1, 2^64 - 1) *)
+Example C16_ex_big_indexes :
+  probe (w_pre ++ [EvOp (OUpdate 123 [(3, 33)]); EvCrash (OUpdate 0 [(3, 34)]) 0]) = (ROk 127, Some (Some 11), Some (Some 33)) /\
+  probe (w_pre ++ [EvOp (OUpdate 123 [(3, 33)]); EvCrash (OUpdate 0 [(3, 34)]) 1]) = (ROk 128, Some (Some 11), Some (Some 34)) /\
+  probe (w_pre ++ [EvOp (ORecover 4294967293 snap5); EvOp OClose; EvCrash OOpen 2]) = (ROk 4294967296, Some (Some 11), Some (Some 30)) /\
+  probe (w_pre ++ [EvOp (OUpdate 9223372036854775805 [(3, 33)]); EvOp (OUpdate 9223372036854775805 [(1, 12)]); EvCrash OClose 0]) =
+    (ROk 18446744073709551615, Some (Some 12), Some (Some 33)).
 Proof. vm_compute. repeat split; reflexivity. Qed.
 (* double crash: crash in the first Open after 12 steps (pointer file written, not yet renamed), crash
    again 3 steps into the recovery Open, then reopen: empty store at index 0, usable *)
 Example C16_ex_double_crash :
   probe [EvCrash OOpen 12; EvCrash OOpen 3] = (ROk 0, Some None, Some None) /\
-  probe [EvCrash OOpen 12; EvCrash OOpen 3; EvOp OOpen; EvOp (OUpdate [(1, 7)]); EvCrash OSync 0] = (ROk 1, Some (Some 7), Some None).
+  probe [EvCrash OOpen 12; EvCrash OOpen 3; EvOp OOpen; EvOp (OUpdate 0 [(1, 7)]); EvCrash OSync 0] = (ROk 1, Some (Some 7), Some None).
 Proof. vm_compute. repeat split; reflexivity. Qed.
 
 (* the invariant is not trivially true: with the step order the code had before commit ade95d9 (pointer
